@@ -52,9 +52,13 @@ CHECKS = {
  'C16': dict(cat='other', ref='3/C16', tech='symbol-table inventory + BMC frame check under --nondet-static + composition argument (no schedule exploration)',
    text='Per-function symbolic proof + composition argument, NOT an exploration of interleavings (CBMC refuses pointer-based concurrency). (a) every static-lifetime object of every library goto binary must be const; only memcpy/memset are called externally; (b) every accessor/initialiser/builder/codec harness is decided again with an arbitrary pre-state of all mutable statics (--nondet-static): oracle assertions and pointer checks must hold; (c) functions whose footprint is their arguments plus immutable tables are race-free on distinct arguments. A mutable static is replayed on two threads under ThreadSanitizer.',
    note='Trusted: goto-instrument symbol table; the composition argument (stated in DESIGN.md); TSan for replays. Level "other": the schedule quantifier is discharged by argument over solver-checked footprints.'),
+
+ 'C20': dict(cat='model_checking', ref='3/C20', tech='front-end compile matrix (goto-cc/gcc C99, clang++ C++17) + BMC-decided value/designation assertions in combined TUs',
+   text='(1) compiles: 26 headers alone, all 650 ordered pairs and 3 full-set orders (alphabetical, reverse, VERIF_SEED-shuffled), as C and as C++ - front-end verdicts, not solver queries; macro redefinition between repository headers counts as a conflict. (2) keeps its meaning: in every ordered pair that compiles, every public enumerator, integer macro and sizeof of a public type is asserted equal to its header-alone value (one CBMC query per first header, one TU per pair); in the full-set orders every field enumerator is additionally checked through the real by-identifier reader on a symbolic buffer against the oracle bit range.',
+   note='Trusted: the C/C++ front ends for the compile half; CBMC for the assertions. Subsets larger than pairs only through the full-set orders. The aaf/Aaf.h + aaf/Pcm.h legacy-name clash is a recorded known finding (4 entries).'),
 }
 NA = {}
-for i in (18,19,20):
+for i in (18,19):
     NA['C%02d' % i] = 'check not built yet in this round (see DESIGN.md section 3 for the plan)'
 
 def main():
